@@ -163,3 +163,64 @@ func TestC02NoLoss(t *testing.T) {
 		return res
 	})
 }
+
+// TestC02Enumerate: the complete single-fault grid of one base scenario (fault enumeration proper).
+func TestC02Enumerate(t *testing.T) {
+	type pos struct {
+		dir   memnet.Dir
+		class string
+		ord   int
+		after bool
+		mode  memnet.Mode
+		hold  int
+		store string
+	}
+	var grid []pos
+	for _, hold := range []int{0, 2} {
+		for _, store := range []string{"library-default", "payload"} {
+			for _, p := range positions {
+				maxOrd := 8
+				if p.class == "Ping" || p.class == "Pong" {
+					maxOrd = 3
+				}
+				for ord := 1; ord <= maxOrd; ord++ {
+					for _, after := range []bool{false, true} {
+						for _, mode := range []memnet.Mode{memnet.Sever, memnet.WFail, memnet.REOF, memnet.Blackhole} {
+							grid = append(grid, pos{p.dir, p.class, ord, after, mode, hold, store})
+						}
+					}
+				}
+			}
+		}
+	}
+	meta := vrun.Meta{Property: "C02", Workload: "TestC02Enumerate", Total: len(grid), Exhaustive: true,
+		Rule:        "complete single-fault grid of one base scenario (one reliable upstream, immediate flush, 8 chunks before the failure, 3 during the outage, 3 after): failure before/after the n-th chunk (1-8), n-th ack (1-8), n-th ping or pong (1-3) x 4 failure modes x acks of every 2nd chunk withheld or not x library-default or payload-keeping storage; same oracle as TestC02NoLoss. non-trivial = the fault fired; all cases distinct",
+		Assumptions: []string{"positions the base scenario does not reach (e.g. the 8th ack when acks are withheld) are reported as trivial"}}
+	vrun.Loop(t, meta, 0, func(c *vrun.Case) vrun.Result {
+		g := grid[c.Index]
+		s := reconlib.Scenario{PingMs: 200, WritesB: 3, DuringWrites: 3, AckHoldMod: g.hold, Storage: g.store}
+		s.Ups = []reconlib.UpSpec{{QoS: "reliable", Flush: "immediate", Writes: 8}}
+		s.Faults = []reconlib.Fault{{Trigger: memnet.Trigger{Dir: g.dir, Class: g.class, Ordinal: g.ord, After: g.after, Mode: g.mode}}}
+		var res vrun.Result
+		ok, dump := vrun.Watchdog(120*time.Second, func() {
+			func() {
+				defer func() {
+					if r := recover(); r != nil {
+						if res.Verdict == "" {
+							res = vrun.Inconcl(fmt.Sprint("bubble aborted: ", r))
+						} else if res.Note == "" {
+							res.Note = fmt.Sprint("bubble end: ", r)
+						}
+					}
+				}()
+				synctest.Test(c.T, func(t *testing.T) { res = judge(reconlib.Run(s)) })
+			}()
+		})
+		if !ok {
+			res = vrun.Inconcl("real-time watchdog fired (bubble stalled)")
+			res.Witness = map[string]any{"dump_head": dump[:min(len(dump), 3000)]}
+		}
+		res.Desc = s
+		return res
+	})
+}
